@@ -26,16 +26,19 @@
 //
 // ops: comma-separated calls, a<n> = d.AddContext(n) (any int64 n, also negative), u = d.Unify().
 // H: d.Chunks after every call, '!'-separated (a panic ends the list with "panic:<kind>").
-// K: three flags: d.Edits unchanged after every call; lhs, rhs, d.Left, d.Right unchanged at the
-// end; every call returned its receiver.
+// K: three flags: d.Edits unchanged after every call and after the caller has overwritten every slot
+// of every Chunks[i].Edits (up to its capacity) and the line texts of the context edits; lhs, rhs,
+// d.Left, d.Right unchanged at the end (after that overwriting); every call returned its receiver.
 //
 // ARBITRARY CHUNK LISTS for the exported UnifyChunks (chunks that need not come from a Diff):
 //
 //	U <chunks> | U=<chunks>      (or U=panic:<kind>)
 //
 // K: four flags: d.Edits unchanged (deep comparison with a copy taken after New) after
-// AddContext; the same after Unify; lhs and rhs unchanged at the end; AddContext and Unify
-// returned their receiver.
+// AddContext; the same after Unify and after the chunks' edit slices were overwritten; lhs and rhs
+// unchanged at the end; AddContext and Unify returned their receiver.
+//
+// S / SC lines (the scale stream: long texts named by a recipe, digested outputs): see scale.go.
 package main
 
 import (
@@ -207,6 +210,10 @@ func execHist(opsS, lhsS, rhsS string) string {
 	if len(stages) > 0 {
 		hs = strings.Join(stages, "!")
 	}
+	// overwrite every slot of every chunk's Edits (up to its capacity) and the texts of the context
+	// edits: neither d.Edits nor the inputs may notice (scale.go)
+	poisonChunks(d.Chunks)
+	same = same && sameEdits(snap, d.Edits)
 	k := tr.B(same)
 	k += tr.B(sameLines(lhs, lhs0) && sameLines(rhs, rhs0) && sameLines(d.Left, lhs0) && sameLines(d.Right, rhs0) &&
 		lhs[:cap(lhs)][len(lhs)] == "SENTINEL" && rhs[:cap(rhs)][len(rhs)] == "SENTINEL")
@@ -270,6 +277,14 @@ func exec(in string) string {
 	if len(f) == 2 && f[0] == "U" {
 		return execUnify(f[1])
 	}
+	if len(f) == 4 && f[0] == "S" {
+		out, _ := execScale(f[1], f[3])
+		return out
+	}
+	if len(f) == 3 && f[0] == "SC" {
+		out, _ := execScale(f[1], f[2])
+		return out
+	}
 	if len(f) == 5 && f[0] == "H" {
 		return execHist(f[1], f[3], f[4])
 	}
@@ -305,6 +320,7 @@ func exec(in string) string {
 	}
 	ret = ret && d2 == d
 	out += " U=" + fmtChunks(d.Chunks)
+	poisonChunks(d.Chunks) // as in execHist
 	k += tr.B(sameEdits(snap, d.Edits))
 	k += tr.B(sameLines(lhs, lhs0) && sameLines(rhs, rhs0) && sameLines(d.Left, lhs0) && sameLines(d.Right, rhs0) &&
 		lhs[:cap(lhs)][len(lhs)] == "SENTINEL" && rhs[:cap(rhs)][len(rhs)] == "SENTINEL")
@@ -689,7 +705,7 @@ func mutate(r *tr.Rand, alpha []string, lhs []string) []string {
 	return out
 }
 
-const rule = "C13: New(lhs, rhs).AddContext(n).Unify() on every pair of line sequences of length <= 5 over 2 symbols for every n in 0..3 (15876 cases, every run); every pair of length <= 3 (quick) / 4 (thorough) over 3 symbols, n in 0..3; random repetitive texts (a short block repeated with disturbances), random texts, and texts derived from one another by a few local edits (long common runs), lengths up to 40, alphabets of 2-4 lines including the empty line, n from {0,1,2,3,5,8,100} (n larger than every gap). The edit script slice.EditScript returned is recorded with the input (oracle) and compared with d.Edits; every fourth case carries no oracle and is predicted by the composed model (model of slice.EditScript + chunk model). n also from {-1, MaxInt64, MinInt64}. HISTORIES (H/HC lines): after New, any sequence of AddContext(n_i) and Unify calls: 23 fixed sequences (Unify alone, Unify twice, AddContext twice with equal/growing/shrinking n, AddContext after Unify, Unify-AddContext-Unify, negative/zero/MaxInt64/MinInt64 n in between) on every pair of sequences of length <= 4 (quick) / 5 (thorough) over 2 symbols, and a random sequence of 2-7 calls (n from {1,2,3,4,6,0,-1,100,MaxInt64,MinInt64}) on every second random pair and on structured pairs (2-4 changed lines separated by common runs of 1-8 lines, so that several calls stack several layers of context in one gap); d.Chunks recorded after every call. ARBITRARY CHUNK LISTS (U lines): the exported UnifyChunks on 4000 (quick) / 100000 (thorough) random lists of 1-4 chunks with edits of all kinds, neighbours apart, adjacent or overlapping by more or less than the context edit at the boundary, with or without context edits on either side, some with ranges that do not fit their edits; panics (nil edit pointer, the explicit merge panic, slice bounds) are part of the compared output. A case is non-trivial when there is at least one chunk and n > 0 (pipeline) or at least two calls (history); counters say how many cases had several chunks, overlapping or adjacent chunks after AddContext, chunks merged by Unify, chunks kept apart by Unify."
+const rule = "C13: New(lhs, rhs).AddContext(n).Unify() on every pair of line sequences of length <= 5 over 2 symbols for every n in 0..3 (15876 cases, every run); every pair of length <= 3 (quick) / 4 (thorough) over 3 symbols, n in 0..3; random repetitive texts (a short block repeated with disturbances), random texts, and texts derived from one another by a few local edits (long common runs), lengths up to 40, alphabets of 2-4 lines including the empty line, n from {0,1,2,3,5,8,100} (n larger than every gap). The edit script slice.EditScript returned is recorded with the input (oracle) and compared with d.Edits; every fourth case carries no oracle and is predicted by the composed model (model of slice.EditScript + chunk model). n also from {-1, MaxInt64, MinInt64}. HISTORIES (H/HC lines): after New, any sequence of AddContext(n_i) and Unify calls: 23 fixed sequences (Unify alone, Unify twice, AddContext twice with equal/growing/shrinking n, AddContext after Unify, Unify-AddContext-Unify, negative/zero/MaxInt64/MinInt64 n in between) on every pair of sequences of length <= 4 (quick) / 5 (thorough) over 2 symbols, and a random sequence of 2-7 calls (n from {1,2,3,4,6,0,-1,100,MaxInt64,MinInt64}) on every second random pair and on structured pairs (2-4 changed lines separated by common runs of 1-8 lines, so that several calls stack several layers of context in one gap); d.Chunks recorded after every call. ARBITRARY CHUNK LISTS (U lines): the exported UnifyChunks on 4000 (quick) / 100000 (thorough) random lists of 1-4 chunks with edits of all kinds, neighbours apart, adjacent or overlapping by more or less than the context edit at the boundary, with or without context edits on either side, some with ranges that do not fit their edits; panics (nil edit pointer, the explicit merge panic, slice bounds) are part of the compared output. A case is non-trivial when there is at least one chunk and n > 0 (pipeline) or at least two calls (history); counters say how many cases had several chunks, overlapping or adjacent chunks after AddContext, chunks merged by Unify, chunks kept apart by Unify. SCALE (S/SC lines, scale.go): texts named by a recipe (runs of common lines with all lines different / period 2 / period 3 / all equal / runs of 33 equal lines, dropped and inserted lines that occur nowhere else or are copies of the neighbouring line), outputs digested (FNV-1a 64 of the same spelling D/H lines print), the property decided by the harness on the implementation's own chunks by direct definition (line texts compared at the chunk's offsets) and reported in field P: (G) for every n in {0,1,2,3,5,8,64,255,256,257,5000} two or three changes separated by exactly n-1, n, n+1, 2n-1, 2n, 2n+1 common lines (for 5000: gaps 1..700, n larger than the file) with 0, 1, n-1, n, n+1 lines before and after, under AddContext(n)+Unify and one of: AddContext twice, Unify first and twice, AddContext(0) first, AddContext again after Unify (thorough: all); the six gaps in one text repeated up to 1500/4000 lines; (Z) Left of exactly 2^k-1, 2^k, 2^k+1 lines for k = 1..12 with one change at line 1 / in the middle / at the very end (dropped or inserted), two changes at both ends, three, and many changes (one every 2, 3, 4 lines, up to 1025 chunks), n rotating through the same list; quick runs every variant below 200 lines and a seed-rotated selection above (slice.EditScript is quadratic and 40 times dearer on equal lines), thorough all; (R) 40/600 random texts of random such gaps under random histories. After the last call of every D, H and S line every slot of every Chunks[i].Edits up to its capacity and the line texts of the context edits are overwritten before d.Edits and the inputs are compared with their copies."
 
 func gen(g *tr.G) {
 	k := 0
@@ -834,6 +850,8 @@ func gen(g *tr.G) {
 			emitHist(ops, un, lhs, rhs, "hist-"+tag)
 		}
 	}
+	// ---- the scale stream (scale.go): sizes around powers of two, exact gaps for every n
+	genScale(g)
 }
 
 // replayArg returns the value of the -replay flag, if given.
@@ -866,6 +884,11 @@ func main() {
 			if len(f) == 5 && f[0] == "H" {
 				lhs, rhs := tr.UnHexList(f[3]), tr.UnHexList(f[4])
 				in = "H " + f[1] + " " + oracle(lhs, rhs) + " " + f[3] + " " + f[4]
+			}
+			if len(f) == 4 && f[0] == "S" { // the oracle of an S line is d.Edits of the run itself (scale.go)
+				out, orc := execScale(f[1], f[3])
+				w.Case("S "+f[1]+" "+orc+" "+f[3], out, true, "replayed")
+				continue
 			}
 			w.Case(in, exec(in), true, "replayed")
 		}
